@@ -20,6 +20,7 @@ import (
 	"sync/atomic"
 	"time"
 
+	"github.com/paulmach/osm"
 	"github.com/paulmach/osm/replication"
 
 	"verif/gen/fakehttp"
@@ -59,14 +60,24 @@ type Case struct {
 	PrevUpTo int `json:"prev_up_to,omitempty"`
 	PrevQ    int `json:"prev_q,omitempty"`
 
+	// Via: how the library is entered. "" = a Datasource literal with its own
+	// client; "new" = replication.NewDatasource(client); "pkg" = the package
+	// level functions (DefaultDatasource, whose client's transport is replaced
+	// for the duration of the case); "nilclient" = a Datasource without a
+	// Client, which falls back on DefaultDatasource.Client.
+	Via string `json:"via,omitempty"`
+	// Stamp (url family, ops state and current): index into specialStamps, the
+	// time written into the state file; 0 = the directory's own clock
+	Stamp int `json:"stamp,omitempty"`
+
 	// informational (ignored on replay)
 	Present string `json:"present,omitempty"`
 	Time    string `json:"time,omitempty"`
 }
 
 func (c Case) fingerprint() string {
-	return fmt.Sprintf("%s|%d|%d|%x|%d|%d|%d|%d|%d|%d|%d|%v|%s|%d|%d|%d", c.Family, c.Kind, c.N, c.Mask, c.Q,
-		c.GapStart, c.GapLen, c.DT, c.FaultAt, c.FaultKind, c.Seq, c.AltBase, c.Op, c.PrevUpTo, c.PrevQ, c.SubNs)
+	return fmt.Sprintf("%s|%d|%d|%x|%d|%d|%d|%d|%d|%d|%d|%v|%s|%d|%d|%d|%s|%d", c.Family, c.Kind, c.N, c.Mask, c.Q,
+		c.GapStart, c.GapLen, c.DT, c.FaultAt, c.FaultKind, c.Seq, c.AltBase, c.Op, c.PrevUpTo, c.PrevQ, c.SubNs, c.Via, c.Stamp)
 }
 
 func (c Case) dir() *dir {
@@ -80,15 +91,45 @@ func (c Case) dir() *dir {
 	return d
 }
 
+// Far query positions of the small family, outside 0..2N: times that no state
+// is near, at the ends of what the usual integer clocks can hold.
+const (
+	qZeroTime   = -1 // time.Time{}: year 1
+	qBefore1970 = -2 // 1 ns before the Unix epoch: negative Unix time
+	qAfter2262  = -3 // the first midnight that no longer fits int64 nanoseconds since 1970
+	qYear9999   = -4 // the last nanosecond time.RFC3339 can print
+)
+
+var farQs = []int{qZeroTime, qBefore1970, qAfter2262, qYear9999}
+
+// queryZones: the query time is handed over as the same instant in different
+// time zones (a pure function of the case; an instant is an instant).
+var queryZones = []*time.Location{time.UTC, time.FixedZone("", 5*3600+1800), time.FixedZone("", -8*3600)}
+
 // queryTime of a small-family position: 0 = one second before state 1 was
 // written, 2k-1 = exactly when state k was written, 2k = one second later
 // (that is between k and k+1, or after the last one for k = N). Positions use
-// the nominal times of all sequence numbers, present or not.
+// the nominal times of all sequence numbers, present or not. Negative
+// positions are the far times above.
 func (c Case) queryTime(d *dir) time.Time {
+	z := queryZones[(uint64(c.Q+8)+c.Mask+uint64(c.GapStart)+uint64(c.DT+1))%uint64(len(queryZones))]
+	return c.queryInstant(d).In(z)
+}
+
+func (c Case) queryInstant(d *dir) time.Time {
 	if c.Family == "large" {
 		return d.ts(c.Q).Add(time.Duration(c.DT)*time.Second + time.Duration(c.SubNs))
 	}
-	if c.Q == 0 {
+	switch c.Q {
+	case qZeroTime:
+		return time.Time{}
+	case qBefore1970:
+		return time.Unix(0, -1)
+	case qAfter2262:
+		return time.Date(2262, 4, 12, 0, 0, 0, 0, time.UTC)
+	case qYear9999:
+		return time.Date(9999, 12, 31, 23, 59, 59, 999999999, time.UTC)
+	case 0:
 		return d.ts(1).Add(-time.Second)
 	}
 	k := (c.Q + 1) / 2
@@ -119,10 +160,16 @@ func (c Case) annotate(d *dir) Case {
 const (
 	faultStatus500 = iota
 	faultTransport
+	// faultCancel: the caller's context is cancelled while request FaultAt is
+	// being answered (that request still gets its answer); FaultAt == 0: the
+	// context is already cancelled when the lookup is called. Every later
+	// request made with the caller's context fails in the transport, as it does
+	// in net/http.
+	faultCancel
 	nFaultKinds
 )
 
-var faultName = [nFaultKinds]string{"status-500", "transport-error"}
+var faultName = [nFaultKinds]string{"status-500", "transport-error", "context-cancelled"}
 var errInjected = errors.New("fakehttp: injected transport failure")
 
 // result of one search run against the fake server.
@@ -135,6 +182,9 @@ type result struct {
 	Hung      bool
 	Panic     string
 	BadReq    string // first request that is not a GET of a well-formed state URL
+	// faultCancel only: a request made after the cancellation reached the
+	// server, i.e. it was not made with the caller's context
+	AnsweredAfterCancel bool
 }
 
 const watchdog = 60 * time.Second
@@ -163,16 +213,70 @@ var capOnce sync.Once
 // runSearch performs one lookup. budget bounds the number of answered
 // requests; faultAt > 0 makes that request fail.
 func runSearch(d *dir, t time.Time, budget, faultAt, faultKind int) result {
-	return runSearchAfter(nil, time.Time{}, d, t, budget, faultAt, faultKind)
+	return runSearchAfter("", nil, time.Time{}, d, t, budget, faultAt, faultKind)
 }
 
 type switchRT struct{ cur http.RoundTripper }
 
 func (s *switchRT) RoundTrip(req *http.Request) (*http.Response, error) { return s.cur.RoundTrip(req) }
 
-// lookup calls the StateAt function of the directory's kind.
-func lookup(ds *replication.Datasource, kind int, t time.Time) (uint64, *replication.State, error) {
-	ctx := context.Background()
+// defaultMu serialises the cases that enter the library through
+// replication.DefaultDatasource (process-wide state).
+var defaultMu sync.Mutex
+
+// withDefaultTransport runs f while the DefaultDatasource's client sends
+// everything through rt.
+func withDefaultTransport(rt http.RoundTripper, f func()) {
+	defaultMu.Lock()
+	defer defaultMu.Unlock()
+	c := replication.DefaultDatasource.Client
+	old := c.Transport
+	c.Transport = rt
+	defer func() { c.Transport = old }()
+	f()
+}
+
+// datasourceFor builds the entry point of a case; nil means the package level
+// functions. global reports whether DefaultDatasource's transport has to be
+// replaced while the case runs.
+func datasourceFor(via, base string, client *http.Client) (ds *replication.Datasource, global bool) {
+	switch via {
+	case "new":
+		ds = replication.NewDatasource(client)
+		ds.BaseURL = base
+		return ds, false
+	case "pkg":
+		if base != "" {
+			kit.Fatalf("the package level functions have no base URL")
+		}
+		return nil, true
+	case "nilclient":
+		return &replication.Datasource{BaseURL: base}, true
+	case "":
+		return &replication.Datasource{BaseURL: base, Client: client}, false
+	}
+	kit.Fatalf("unknown via %q", via)
+	return nil, false
+}
+
+// lookup calls the StateAt function of the directory's kind (ds == nil: the
+// package level function).
+func lookup(ctx context.Context, ds *replication.Datasource, kind int, t time.Time) (uint64, *replication.State, error) {
+	if ds == nil {
+		switch kind {
+		case kMinute:
+			n, st, err := replication.MinuteStateAt(ctx, t)
+			return uint64(n), st, err
+		case kHour:
+			n, st, err := replication.HourStateAt(ctx, t)
+			return uint64(n), st, err
+		case kDay:
+			n, st, err := replication.DayStateAt(ctx, t)
+			return uint64(n), st, err
+		}
+		n, st, err := replication.ChangesetStateAt(ctx, t)
+		return uint64(n), st, err
+	}
 	switch kind {
 	case kMinute:
 		n, st, err := ds.MinuteStateAt(ctx, t)
@@ -191,10 +295,18 @@ func lookup(ds *replication.Datasource, kind int, t time.Time) (uint64, *replica
 // runSearchAfter: with warm != nil the same Datasource (and http.Client) first
 // looks up warmT in the directory warm (what the server had published so far);
 // its outcome is not judged, its requests are not counted.
-func runSearchAfter(warm *dir, warmT time.Time, dJudged *dir, t time.Time, budget, faultAt, faultKind int) result {
+func runSearchAfter(via string, warm *dir, warmT time.Time, dJudged *dir, t time.Time, budget, faultAt, faultKind int) result {
 	var res result
 	tr := &fakehttp.Transport{Budget: budget}
 	d := dJudged
+	ctx, cancel := context.WithCancel(context.Background())
+	defer cancel()
+	cancelled := false // only touched by the (sequential) requests of the judged lookup
+	if faultKind == faultCancel && faultAt == 0 {
+		cancel()
+		cancelled = true
+		faultAt = -1
+	}
 	serve := func(d *dir, n int, req *http.Request, res *result) (fakehttp.Response, bool) {
 		u := req.URL.String()
 		seq, current, ok := d.parseStateURL(u)
@@ -204,7 +316,13 @@ func runSearchAfter(warm *dir, warmT time.Time, dJudged *dir, t time.Time, budge
 			}
 			return fakehttp.Response{Status: 404}, true
 		}
-		if n == faultAt && d == dJudged {
+		if cancelled && d == dJudged {
+			res.AnsweredAfterCancel = true
+		}
+		if n == faultAt && d == dJudged && faultKind == faultCancel {
+			cancel()
+			cancelled = true
+		} else if n == faultAt && d == dJudged {
 			if faultKind == faultTransport {
 				return fakehttp.Response{Err: errInjected}, true
 			}
@@ -223,7 +341,19 @@ func runSearchAfter(warm *dir, warmT time.Time, dJudged *dir, t time.Time, budge
 	sw := &switchRT{cur: tr}
 	client := tr.Client()
 	client.Transport = sw
-	ds := &replication.Datasource{BaseURL: d.Base, Client: client}
+	ds, global := datasourceFor(via, d.Base, client)
+	if global {
+		// the whole case, watchdog included, runs under the lock
+		withDefaultTransport(sw, func() { runSearchOn(ctx, ds, sw, tr, serve, warm, warmT, d, t, budget, &res) })
+		return res
+	}
+	runSearchOn(ctx, ds, sw, tr, serve, warm, warmT, d, t, budget, &res)
+	return res
+}
+
+func runSearchOn(ctx context.Context, ds *replication.Datasource, sw *switchRT, tr *fakehttp.Transport,
+	serve func(*dir, int, *http.Request, *result) (fakehttp.Response, bool),
+	warm *dir, warmT time.Time, d *dir, t time.Time, budget int, res *result) {
 	if warm != nil {
 		wtr := &fakehttp.Transport{Budget: budget}
 		var wres result
@@ -232,13 +362,13 @@ func runSearchAfter(warm *dir, warmT time.Time, dJudged *dir, t time.Time, budge
 		wdone := make(chan struct{})
 		go func() {
 			defer func() { recover(); close(wdone) }()
-			lookup(ds, warm.Kind, warmT)
+			lookup(context.Background(), ds, warm.Kind, warmT)
 		}()
 		select {
 		case <-wdone:
 		case <-time.After(watchdog):
 			res.Hung = true
-			return res
+			return
 		}
 		sw.cur = tr
 	}
@@ -258,7 +388,7 @@ func runSearchAfter(warm *dir, warmT time.Time, dJudged *dir, t time.Time, budge
 			}
 			done <- o
 		}()
-		o.seq, o.st, o.err = lookup(ds, d.Kind, t)
+		o.seq, o.st, o.err = lookup(ctx, ds, d.Kind, t)
 	}()
 	timer := time.NewTimer(watchdog)
 	select {
@@ -270,7 +400,6 @@ func runSearchAfter(warm *dir, warmT time.Time, dJudged *dir, t time.Time, budge
 	}
 	res.Reqs = tr.Requests()
 	res.Exhausted = tr.Exhausted()
-	return res
 }
 
 func trace(reqs []fakehttp.Request, d *dir, max int) string {
@@ -371,9 +500,22 @@ func ceilLog2(n int) int {
 func budgetFor(c Case) int {
 	if c.Family == "large" {
 		l := ceilLog2(c.N)
+		if c.longLeadingGap() {
+			// the run of missing files is (much) longer than any search should
+			// walk: the budget only has to tell a search that ends from one that
+			// does not. (l+2)^2 covers a bisection that starts over from 1 every
+			// time it has found a closer state.
+			return 10 + 4*l + (l+2)*(l+2)
+		}
 		return 10 + 4*l + c.GapLen*(l+2)
 	}
 	return 10*c.N + 20
+}
+
+// longLeadingGap: large family, the directory's first state is far from 1
+// (everything below it is missing, as on the planet's changesets directory).
+func (c Case) longLeadingGap() bool {
+	return c.Family == "large" && c.GapStart == 1 && c.GapLen > gapLens[len(gapLens)-1]
 }
 
 // checkSearch judges one fault-free lookup (small and large families).
@@ -395,8 +537,14 @@ func checkSearch(r *kit.Run, c Case) {
 		pc.Q = c.PrevQ
 		warmT = pc.queryTime(warm)
 	}
-	res := runSearchAfter(warm, warmT, d, t, budget, 0, 0)
+	res := runSearchAfter(c.Via, warm, warmT, d, t, budget, 0, 0)
 	r.Add("requests_total", int64(len(res.Reqs)))
+	if c.Via != "" {
+		r.Add("searches_via_"+c.Via, 1)
+	}
+	if c.longLeadingGap() {
+		r.Add("searches_large_first_state_far_from_1", 1)
+	}
 	sit := d.situation(t)
 	ac := c.annotate(d)
 	if r.WantSample() && nontrivial {
@@ -405,6 +553,9 @@ func checkSearch(r *kit.Run, c Case) {
 	}
 	desc := fmt.Sprintf("%s states %s, t=%s (%s)", kindDir[c.Kind], ac.Present, ac.Time, sit)
 	second := ""
+	if c.Via != "" {
+		desc += ", entered via " + c.Via
+	}
 	if warm != nil {
 		desc += fmt.Sprintf(", second lookup of one Datasource (first: position %d while only the states up to %d were published)", c.PrevQ, c.PrevUpTo)
 		second = "/second-lookup-on-one-datasource"
@@ -412,7 +563,7 @@ func checkSearch(r *kit.Run, c Case) {
 
 	if res.Hung {
 		// last resort: no verdict from the request budget. Confirm once.
-		res2 := runSearchAfter(warm, warmT, d, t, budget, 0, 0)
+		res2 := runSearchAfter(c.Via, warm, warmT, d, t, budget, 0, 0)
 		if res2.Hung {
 			atomic.AddInt64(&hangs, 1)
 			viol(r, "nonterminating/no-requests/"+sit,
@@ -433,6 +584,13 @@ func checkSearch(r *kit.Run, c Case) {
 	}
 	if res.Exhausted {
 		cyc := cycleClass(res.Reqs, d)
+		if c.longLeadingGap() && cyc == "no-cycle" {
+			// the property allows a search to step over the missing files (here
+			// thousands to millions); more requests than the quadratic budget
+			// without going round in circles is not decided by it
+			r.Add("over_budget_below_long_leading_gap_not_judged", 1)
+			return
+		}
 		if c.Family == "large" && cyc == "no-cycle" {
 			// beyond the logarithmic budget without going round in circles:
 			// linear stepping (or an endless search that never repeats itself)
@@ -522,12 +680,47 @@ func checkFaultBase(r *kit.Run, base Case, maxK int) {
 	if k > maxK {
 		k = maxK
 	}
-	for at := 1; at <= k; at++ {
+	for at := 0; at <= k; at++ {
 		for fk := 0; fk < nFaultKinds; fk++ {
+			if at == 0 && fk != faultCancel {
+				continue // only a context can fail before the first request
+			}
 			c := base
 			c.FaultAt, c.FaultKind = at, fk
 			checkFault(r, c)
 		}
+	}
+}
+
+// checkCancel judges a lookup whose context was cancelled while request
+// FaultAt was answered (0: before the call). A request made with the caller's
+// context after that fails in the transport like any other transport error, so
+// the fault clause applies to it: the lookup ends with an error after at most
+// one further request. Whether the library has to make its requests with the
+// caller's context at all, and what a lookup returns whose last request was
+// the one during which the cancellation happened, the property does not say:
+// both are counted, not judged.
+func checkCancel(r *kit.Run, c Case, d *dir, res result, desc string, ac Case) {
+	key := faultName[faultCancel]
+	switch {
+	case res.Hung:
+		viol(r, "error-propagation/hang/"+key, desc+": no result within the watchdog time", ac)
+	case res.Panic != "":
+		viol(r, "error-propagation/panic/"+key, desc+": panic "+res.Panic, ac)
+	case res.Exhausted:
+		viol(r, "nonterminating/after-"+key, fmt.Sprintf("%s: no termination within %d requests; requests: %s", desc, budgetFor(c), trace(res.Reqs, d, 40)), ac)
+	case res.AnsweredAfterCancel:
+		r.Add("cancel_request_made_without_the_callers_context_not_judged", 1)
+	case len(res.Reqs) == c.FaultAt && c.FaultAt > 0:
+		r.Add("cancel_during_last_request_not_judged", 1)
+	case res.Err == nil:
+		viol(r, "error-propagation/swallowed/"+key,
+			fmt.Sprintf("%s: request %d failed (context cancelled) but the lookup returned state %d without an error; requests: %s", desc, c.FaultAt+1, res.Seq, trace(res.Reqs, d, 40)), ac)
+	case len(res.Reqs) > c.FaultAt+2:
+		viol(r, "error-propagation/late/"+key,
+			fmt.Sprintf("%s: %d further requests after the first one that failed (error: %v); requests: %s", desc, len(res.Reqs)-c.FaultAt-1, res.Err, trace(res.Reqs, d, 40)), ac)
+	default:
+		r.Add("cancel_observed_and_reported", 1)
 	}
 }
 
@@ -540,7 +733,7 @@ func checkFault(r *kit.Run, c Case) {
 	r.Add("requests_total", int64(len(res.Reqs)))
 	ac := c.annotate(d)
 	which := "numbered-state-request"
-	if c.FaultAt <= len(res.Reqs) {
+	if c.FaultAt >= 1 && c.FaultAt <= len(res.Reqs) {
 		if _, cur, ok := d.parseStateURL(res.Reqs[c.FaultAt-1].URL); ok && cur {
 			which = "current-state-request"
 		}
@@ -549,6 +742,11 @@ func checkFault(r *kit.Run, c Case) {
 	if len(res.Reqs) < c.FaultAt && !res.Hung {
 		r.Add("fault_not_reached", 1) // the run was not deterministic?
 		viol(r, "harness/fault-not-reached", desc+": the faulted request was never made although the fault-free run made it", ac)
+		return
+	}
+	if c.FaultKind == faultCancel {
+		desc = fmt.Sprintf("%s states %s, t=%s, context cancelled while request %d is answered (0 = before the call)", kindDir[c.Kind], ac.Present, ac.Time, c.FaultAt)
+		checkCancel(r, c, d, res, desc, ac)
 		return
 	}
 	switch {
@@ -565,7 +763,10 @@ func checkFault(r *kit.Run, c Case) {
 	}
 }
 
-var urlSeqs = []uint64{1, 999, 1000, 999999, 1000000, 123456789}
+// 999999999 is the last sequence number the nine-digit layout holds (what
+// comes after it the planet has not defined: not enumerated); 2007990 is the
+// planet's first changeset state file
+var urlSeqs = []uint64{1, 999, 1000, 1001, 999999, 1000000, 1001000, 2007990, 123456789, 999999999}
 
 func gz(s string) []byte {
 	var b bytes.Buffer
@@ -587,15 +788,147 @@ var changesetsBody = gz(`<?xml version="1.0" encoding="UTF-8"?>
 </osm>
 `)
 
+// specialStamps are the times written into the state file of a url-family case
+// (Stamp > 0): calendar and clock boundaries, and for changeset states (the
+// only ones with a fraction) the widths of the nanosecond field.
+var specialStamps = []time.Time{
+	{}, // 0: the directory's own clock
+	time.Date(2012, 2, 29, 23, 59, 59, 999999999, time.UTC), // leap day, last nanosecond
+	time.Date(2038, 1, 19, 3, 14, 8, 1, time.UTC),           // 2^31 s after 1970, 1 ns
+	time.Date(2000, 1, 1, 0, 0, 0, 0, time.UTC),             // every clock field zero, no fraction
+	time.Date(2106, 2, 7, 6, 28, 16, 100000000, time.UTC),   // 2^32 s after 1970, trailing zeros
+	time.Date(2001, 2, 3, 4, 5, 6, 7, time.UTC),             // one-digit fields
+}
+
+func stampFor(kind, i int) time.Time {
+	t := specialStamps[i]
+	if kind != kChangesets {
+		t = t.Truncate(time.Second) // interval state files carry whole seconds
+	}
+	return t
+}
+
+// The library's entry points by kind; ds == nil: the package level functions.
+
+func fetchState(ctx context.Context, ds *replication.Datasource, kind int, seq uint64) (*replication.State, error) {
+	if ds == nil {
+		switch kind {
+		case kMinute:
+			return replication.MinuteState(ctx, replication.MinuteSeqNum(seq))
+		case kHour:
+			return replication.HourState(ctx, replication.HourSeqNum(seq))
+		case kDay:
+			return replication.DayState(ctx, replication.DaySeqNum(seq))
+		}
+		return replication.ChangesetState(ctx, replication.ChangesetSeqNum(seq))
+	}
+	switch kind {
+	case kMinute:
+		return ds.MinuteState(ctx, replication.MinuteSeqNum(seq))
+	case kHour:
+		return ds.HourState(ctx, replication.HourSeqNum(seq))
+	case kDay:
+		return ds.DayState(ctx, replication.DaySeqNum(seq))
+	}
+	return ds.ChangesetState(ctx, replication.ChangesetSeqNum(seq))
+}
+
+func fetchCurrent(ctx context.Context, ds *replication.Datasource, kind int) (uint64, *replication.State, error) {
+	if ds == nil {
+		switch kind {
+		case kMinute:
+			n, st, err := replication.CurrentMinuteState(ctx)
+			return uint64(n), st, err
+		case kHour:
+			n, st, err := replication.CurrentHourState(ctx)
+			return uint64(n), st, err
+		case kDay:
+			n, st, err := replication.CurrentDayState(ctx)
+			return uint64(n), st, err
+		}
+		n, st, err := replication.CurrentChangesetState(ctx)
+		return uint64(n), st, err
+	}
+	switch kind {
+	case kMinute:
+		n, st, err := ds.CurrentMinuteState(ctx)
+		return uint64(n), st, err
+	case kHour:
+		n, st, err := ds.CurrentHourState(ctx)
+		return uint64(n), st, err
+	case kDay:
+		n, st, err := ds.CurrentDayState(ctx)
+		return uint64(n), st, err
+	}
+	n, st, err := ds.CurrentChangesetState(ctx)
+	return uint64(n), st, err
+}
+
+// fetchData returns a summary of the decoded data file.
+func fetchData(ctx context.Context, ds *replication.Datasource, kind int, seq uint64) (string, error) {
+	if kind == kChangesets {
+		var cs osm.Changesets
+		var err error
+		if ds == nil {
+			cs, err = replication.Changesets(ctx, replication.ChangesetSeqNum(seq))
+		} else {
+			cs, err = ds.Changesets(ctx, replication.ChangesetSeqNum(seq))
+		}
+		if err != nil {
+			return "", err
+		}
+		data := fmt.Sprintf("%d changesets", len(cs))
+		if len(cs) == 1 {
+			data += fmt.Sprintf(" id %d", cs[0].ID)
+		}
+		return data, nil
+	}
+	var ch *osm.Change
+	var err error
+	switch {
+	case ds == nil && kind == kMinute:
+		ch, err = replication.Minute(ctx, replication.MinuteSeqNum(seq))
+	case ds == nil && kind == kHour:
+		ch, err = replication.Hour(ctx, replication.HourSeqNum(seq))
+	case ds == nil:
+		ch, err = replication.Day(ctx, replication.DaySeqNum(seq))
+	case kind == kMinute:
+		ch, err = ds.Minute(ctx, replication.MinuteSeqNum(seq))
+	case kind == kHour:
+		ch, err = ds.Hour(ctx, replication.HourSeqNum(seq))
+	default:
+		ch, err = ds.Day(ctx, replication.DaySeqNum(seq))
+	}
+	if err != nil {
+		return "", err
+	}
+	var nodes, others int
+	var id int64
+	if ch != nil && ch.Create != nil {
+		nodes, others = len(ch.Create.Nodes), len(ch.Create.Ways)+len(ch.Create.Relations)
+		if nodes == 1 {
+			id = int64(ch.Create.Nodes[0].ID)
+		}
+	}
+	return fmt.Sprintf("%d created nodes, %d others, id %d", nodes, others, id), nil
+}
+
 // checkURL: one direct fetch against a table holding exactly the one URL the
 // planet layout prescribes; anything else is a 404.
 func checkURL(r *kit.Run, c Case) {
 	d := c.dir()
 	r.Case(c.fingerprint(), true)
 	r.Add("url_cases", 1)
+	if c.Via != "" {
+		r.Add("url_cases_via_"+c.Via, 1)
+	}
 	var wantURL string
 	var body []byte
 	when := d.ts(int(c.Seq % 100000))
+	if c.Stamp > 0 {
+		when = stampFor(c.Kind, c.Stamp)
+		r.Add("url_cases_special_stamp", 1)
+	}
 	switch c.Op {
 	case "state":
 		wantURL = d.stateURL(c.Seq)
@@ -609,9 +942,11 @@ func checkURL(r *kit.Run, c Case) {
 		if c.Kind == kChangesets {
 			body = changesetsBody
 		}
+	default:
+		kit.Fatalf("url family: unknown op %q", c.Op)
 	}
 	tr := &fakehttp.Transport{Budget: 5, Table: map[string]fakehttp.Response{fakehttp.Key("GET", wantURL): {Body: body}}}
-	ds := &replication.Datasource{BaseURL: d.Base, Client: tr.Client()}
+	ds, global := datasourceFor(c.Via, d.Base, tr.Client())
 	ctx := context.Background()
 	var (
 		st   *replication.State
@@ -619,7 +954,7 @@ func checkURL(r *kit.Run, c Case) {
 		seq  uint64
 		data string
 	)
-	func() {
+	call := func() {
 		defer func() {
 			if p := recover(); p != nil {
 				err = fmt.Errorf("panic: %v", p)
@@ -627,86 +962,19 @@ func checkURL(r *kit.Run, c Case) {
 		}()
 		switch c.Op {
 		case "state":
-			switch c.Kind {
-			case kMinute:
-				st, err = ds.MinuteState(ctx, replication.MinuteSeqNum(c.Seq))
-			case kHour:
-				st, err = ds.HourState(ctx, replication.HourSeqNum(c.Seq))
-			case kDay:
-				st, err = ds.DayState(ctx, replication.DaySeqNum(c.Seq))
-			case kChangesets:
-				st, err = ds.ChangesetState(ctx, replication.ChangesetSeqNum(c.Seq))
-			}
+			st, err = fetchState(ctx, ds, c.Kind, c.Seq)
 			seq = c.Seq
 		case "current":
-			switch c.Kind {
-			case kMinute:
-				var n replication.MinuteSeqNum
-				n, st, err = ds.CurrentMinuteState(ctx)
-				seq = uint64(n)
-			case kHour:
-				var n replication.HourSeqNum
-				n, st, err = ds.CurrentHourState(ctx)
-				seq = uint64(n)
-			case kDay:
-				var n replication.DaySeqNum
-				n, st, err = ds.CurrentDayState(ctx)
-				seq = uint64(n)
-			case kChangesets:
-				var n replication.ChangesetSeqNum
-				n, st, err = ds.CurrentChangesetState(ctx)
-				seq = uint64(n)
-			}
+			seq, st, err = fetchCurrent(ctx, ds, c.Kind)
 		case "data":
-			if c.Kind == kChangesets {
-				cs, e := ds.Changesets(ctx, replication.ChangesetSeqNum(c.Seq))
-				err = e
-				if e == nil {
-					data = fmt.Sprintf("%d changesets", len(cs))
-					if len(cs) == 1 {
-						data += fmt.Sprintf(" id %d", cs[0].ID)
-					}
-				}
-			} else {
-				var e error
-				var nodes, others int
-				var id int64
-				switch c.Kind {
-				case kMinute:
-					ch, e2 := ds.Minute(ctx, replication.MinuteSeqNum(c.Seq))
-					e = e2
-					if e2 == nil && ch != nil && ch.Create != nil {
-						nodes, others = len(ch.Create.Nodes), len(ch.Create.Ways)+len(ch.Create.Relations)
-						if nodes == 1 {
-							id = int64(ch.Create.Nodes[0].ID)
-						}
-					}
-				case kHour:
-					ch, e2 := ds.Hour(ctx, replication.HourSeqNum(c.Seq))
-					e = e2
-					if e2 == nil && ch != nil && ch.Create != nil {
-						nodes, others = len(ch.Create.Nodes), len(ch.Create.Ways)+len(ch.Create.Relations)
-						if nodes == 1 {
-							id = int64(ch.Create.Nodes[0].ID)
-						}
-					}
-				case kDay:
-					ch, e2 := ds.Day(ctx, replication.DaySeqNum(c.Seq))
-					e = e2
-					if e2 == nil && ch != nil && ch.Create != nil {
-						nodes, others = len(ch.Create.Nodes), len(ch.Create.Ways)+len(ch.Create.Relations)
-						if nodes == 1 {
-							id = int64(ch.Create.Nodes[0].ID)
-						}
-					}
-				}
-				err = e
-				if e == nil {
-					data = fmt.Sprintf("%d created nodes, %d others, id %d", nodes, others, id)
-				}
-			}
+			data, err = fetchData(ctx, ds, c.Kind, c.Seq)
 		}
-	}()
+	}
+	if global {
+		withDefaultTransport(tr, call)
+	} else {
+		call()
+	}
 	reqs := tr.Requests()
 	var got []string
 	for _, q := range reqs {
@@ -714,8 +982,18 @@ func checkURL(r *kit.Run, c Case) {
 	}
 	key := "request-url/" + c.Op + "/" + kindDir[c.Kind]
 	desc := fmt.Sprintf("%s %s of sequence %d with base %q", kindDir[c.Kind], c.Op, c.Seq, d.Base)
+	if c.Via != "" {
+		desc += ", entered via " + c.Via
+	}
+	if c.Stamp > 0 {
+		desc += ", file stamped " + when.Format(time.RFC3339Nano)
+	}
 	if len(reqs) != 1 || reqs[0].Method != "GET" || reqs[0].URL != wantURL {
-		viol(r, key, fmt.Sprintf("%s: requests %v, want exactly [GET %s]", desc, got, wantURL), c)
+		what := ""
+		if err != nil {
+			what = fmt.Sprintf(" (error: %v)", err)
+		}
+		viol(r, key, fmt.Sprintf("%s: requests %v, want exactly [GET %s]%s", desc, got, wantURL, what), c)
 		return
 	}
 	if err != nil {
@@ -747,16 +1025,28 @@ func checkURL(r *kit.Run, c Case) {
 
 // ---- enumeration ----
 
-func smallCases(n int) []Case {
+// smallCases: far selects the far query times (year 1, just before 1970, past
+// 2262, year 9999) on top of the positions 0..2N; nsBefore the kinds that are
+// also asked 1 ns BEFORE every sequence number's time (changeset states carry
+// nanoseconds, so that is where a nanosecond decides; all kinds when thorough).
+func smallCases(n int, via string, far bool, nsBefore func(kind int) bool) []Case {
 	var cs []Case
 	for kind := 0; kind < nKinds; kind++ {
 		for mask := uint64(1); mask < 1<<uint(n); mask++ {
+			if far {
+				for _, q := range farQs {
+					cs = append(cs, Case{Family: "small", Kind: kind, N: n, Mask: mask, Q: q, Via: via})
+				}
+			}
 			for q := 0; q <= 2*n; q++ {
-				cs = append(cs, Case{Family: "small", Kind: kind, N: n, Mask: mask, Q: q})
+				cs = append(cs, Case{Family: "small", Kind: kind, N: n, Mask: mask, Q: q, Via: via})
 				if q%2 == 1 {
 					// a fraction of a second after state (q+1)/2 was written
-					cs = append(cs, Case{Family: "small", Kind: kind, N: n, Mask: mask, Q: q, SubNs: 500000000},
-						Case{Family: "small", Kind: kind, N: n, Mask: mask, Q: q, SubNs: 1})
+					cs = append(cs, Case{Family: "small", Kind: kind, N: n, Mask: mask, Q: q, SubNs: 500000000, Via: via},
+						Case{Family: "small", Kind: kind, N: n, Mask: mask, Q: q, SubNs: 1, Via: via})
+					if nsBefore != nil && nsBefore(kind) {
+						cs = append(cs, Case{Family: "small", Kind: kind, N: n, Mask: mask, Q: q, SubNs: -1, Via: via})
+					}
 				}
 			}
 		}
@@ -841,6 +1131,45 @@ func largeTargets(n int, quick bool) []int {
 var largeNs = []int{1000, 65537, 2000000, 2100000}
 var gapLens = []int{1, 2, 5}
 
+// leadingGapCases: large directories whose first state is far from 1 (all files
+// below it are missing, everything from it on exists), as on the planet's
+// changesets directory whose first state file is 2,007,990. First states: next
+// to what a bisection of 1..N looks at first (N/2, N/4 ...), 1000, the planet's
+// number, and the last but one; targets: sequence number 1 (long before the
+// first state), the first state and its neighbour, half way, the end.
+func leadingGapCases(quick bool) []Case {
+	var cs []Case
+	for _, n := range []int{65537, 2100000} {
+		firsts := []int{1000, n/2 + 1, n/2 + 2, n - 1}
+		if n > 2007990 {
+			firsts = append(firsts, 2007990)
+		}
+		if !quick {
+			firsts = append(firsts, 7, 8, 9, 100, n/2, n/4, n/4+1, n/4+2, 3*n/4+1, 3*n/4+2, n/8+1, 7*n/8+1, n-2, n/3, 2*n/3)
+		}
+		seenF := map[int]bool{}
+		for _, f := range firsts {
+			if f < 7 || f >= n || seenF[f] {
+				continue
+			}
+			seenF[f] = true
+			seenQ := map[int]bool{}
+			for _, q := range []int{1, f - 1, f, f + 1, f + 2, (f + n) / 2, n - 1, n} {
+				if q < 1 || q > n || seenQ[q] {
+					continue
+				}
+				seenQ[q] = true
+				for kind := 0; kind < nKinds; kind++ {
+					for dt := -1; dt <= 1; dt++ {
+						cs = append(cs, Case{Family: "large", Kind: kind, N: n, Q: q, DT: dt, GapStart: 1, GapLen: f - 1})
+					}
+				}
+			}
+		}
+	}
+	return cs
+}
+
 func largeCases(quick bool) []Case {
 	var cs []Case
 	for _, n := range largeNs {
@@ -883,6 +1212,26 @@ func urlCases() []Case {
 			}
 			cs = append(cs, Case{Family: "url", Kind: kind, Seq: 4321, AltBase: alt, Op: "current"})
 			cs = append(cs, Case{Family: "url", Kind: kind, Seq: 4322, AltBase: alt, Op: "current"})
+			// the other ways into the library
+			for _, via := range []string{"new", "pkg", "nilclient"} {
+				if via == "pkg" && alt {
+					continue // the package level functions use the default base
+				}
+				for _, s := range []uint64{1000, 123456789} {
+					cs = append(cs, Case{Family: "url", Kind: kind, Seq: s, AltBase: alt, Op: "state", Via: via})
+					// Minute / Hour / Day (the data files) on a Datasource without a
+					// Client: found by the boundary audit (fetchIntervalData called
+					// ds.Client.Do and panicked with a nil pointer), repaired in /repo
+					// ("fix: replication: interval data requests fall back ...")
+					cs = append(cs, Case{Family: "url", Kind: kind, Seq: s, AltBase: alt, Op: "data", Via: via})
+				}
+				cs = append(cs, Case{Family: "url", Kind: kind, Seq: 4321, AltBase: alt, Op: "current", Via: via})
+			}
+		}
+		// calendar / clock / fraction-width boundaries of the stamp in the file
+		for i := 1; i < len(specialStamps); i++ {
+			cs = append(cs, Case{Family: "url", Kind: kind, Seq: 4320 + uint64(i), Op: "state", Stamp: i})
+			cs = append(cs, Case{Family: "url", Kind: kind, Seq: 4320 + uint64(i), Op: "current", Stamp: i})
 		}
 	}
 	return cs
@@ -896,11 +1245,20 @@ func main() {
 			"placed on or next to every sequence number a plain bisection towards the target looks at, query at the target's time and +-1 s; " +
 			"second family: every presence pattern over 1..5 (7 thorough) x every split point (states up to m published when a first lookup ran on the SAME Datasource, the rest published afterwards) x every later query position; " +
 			"fault family: every request index of every lookup over 1..Nf fails once with a 500 and once with a transport error; " +
-			"url family: direct state/data/current fetches at fixed sequence numbers with default and custom base URL. " +
+			"url family: direct state/data/current fetches at fixed sequence numbers (9-digit layout boundaries up to 999999999) with default and custom base URL, " +
+			"entered through a Datasource literal, NewDatasource, the package level functions and a Datasource without Client; state files stamped at calendar / 2^31 s / 2^32 s / fraction-width boundaries. " +
+			"Boundary classes inside the families: query times also at year 1, 1 ns before 1970, past 2262 and year 9999 (small family, every pattern) and 1 ns before every state (changesets; all kinds thorough), " +
+			"handed over in three time zones; interval state files in four planet layouts by sequence number (osmosis key order, reversed key order, osmdbt without transaction keys, merged files with zero / empty values) with transaction ids beyond 2^31 and 2^32, " +
+			"stamps with non-zero seconds and minutes; changeset stamps with fractions 0, 1 ns, 999999999 ns, trailing zeros; " +
+			"large directories whose first state is far from 1 (65537 / 2.1 M numbers, everything below the first state missing, e.g. 2,007,990); the small family again over 1..4 (5) entered through NewDatasource and the package level functions; " +
+			"fault kind context-cancelled (before the call and while each request is answered). " +
 			"A lookup is non-trivial when at least two states exist and t is not after the newest (the answer is not forced); " +
 			"a faulted lookup when the failing request is not the first; fingerprint = all case fields.")
 		r.Assume("net/http client plumbing, compress/gzip and package time are trusted; the in-process transport verif/gen/fakehttp stands in for the planet server")
 		r.Assume("timestamps only enter the search through comparisons, so one strictly increasing assignment per kind (second resolution for minute/hour/day, nanoseconds for changesets) with query times at, 1 s before and 1 s after the states covers every ordering")
+		r.Assume("not judged because the property text does not decide them (counted where they can occur, otherwise not enumerated): whether requests carry the caller's context; the result of a lookup cancelled during its last request; " +
+			"more than 10+4L+(L+2)^2 requests (L = ceil(log2 N)) without repetition below a first state that is thousands to millions of numbers from 1; state files that are not in a planet layout " +
+			"(CRLF, no final newline, leading zeros, missing keys, empty or cut bodies, timestamps without the planet's spelling); statuses other than 200 / 404 / 500 (403, 410: is the file missing?); redirects; sequence numbers of more than nine digits; base URLs ending in a slash")
 		r.Assume("termination is decided by a request budget (10N+20 small; 10+4*ceil(log2 N)+gap*(ceil(log2 N)+2) large), not by time: past it every request fails. " +
 			"A lookup that used up the budget is reported as nonterminating/<how its request log repeats>, or in the large family, when the log does not repeat, as request-count/... " +
 			"A 60 s watchdog only guards against loops that make no requests; it is confirmed by one re-run, and the run stops (capped) after 3 such cases")
@@ -939,7 +1297,13 @@ func main() {
 			}
 		})
 
-		small := smallCases(nSmall)
+		nsBefore := func(kind int) bool { return kind == kChangesets || !r.Quick() }
+		small := smallCases(nSmall, "", true, nsBefore)
+		// the same lookups entered through NewDatasource and through the package
+		// level functions (one process-wide DefaultDatasource: serialised)
+		for _, via := range []string{"new", "pkg"} {
+			small = append(small, smallCases(r.Pick(4, 5), via, true, nil)...)
+		}
 		r.Set("cases_small", len(small))
 		r.Par(len(small), func(i int) {
 			if !skip(r) {
@@ -956,6 +1320,9 @@ func main() {
 		})
 
 		large := largeCases(r.Quick())
+		lead := leadingGapCases(r.Quick())
+		r.Set("cases_large_first_state_far_from_1", len(lead))
+		large = append(large, lead...)
 		r.Set("cases_large", len(large))
 		r.Par(len(large), func(i int) {
 			if !skip(r) {
@@ -963,7 +1330,7 @@ func main() {
 			}
 		})
 
-		fb := smallCases(nFault)
+		fb := smallCases(nFault, "", false, nil)
 		r.Set("fault_base_cases", len(fb))
 		r.Par(len(fb), func(i int) {
 			if skip(r) {
